@@ -370,6 +370,8 @@ def run(tier):
     positive_controls(chk)
     mark_justification(chk)
     bits2int_order(chk)
+    from . import c03 as _c03
+    _c03.failed_keyx_randomised(chk)
     flow.all_units()
     with mp.get_context('fork').Pool(min(16, len(ENTRIES))) as pool:
         res = pool.map(_worker, range(len(ENTRIES)))
